@@ -226,6 +226,21 @@ func c09Strategy(cc *run.Case, ns namedStrat, raceOnly bool) {
 	if !raceOnly && !untouched("after the concurrent calls") {
 		return
 	}
+	if !raceOnly {
+		// a close-only feed (no open/high/low/volume): whatever a strategy makes of
+		// it, it must not complete the caller's data in place
+		feed := make([]*asset.Snapshot, 40)
+		for i := range feed {
+			feed[i] = &asset.Snapshot{Date: reg.Day(i), Close: 50 + float64(i%7)}
+		}
+		runStrat(ns.New(), feed)
+		for i, sp := range feed {
+			if sp.Open != 0 || sp.High != 0 || sp.Low != 0 || sp.Volume != 0 || sp.Close != 50+float64(i%7) {
+				cc.Viol("", fmt.Sprintf("%s: a close-only snapshot handed to Compute reads %+v afterwards: the strategy wrote to its input", ns.Name, *sp), map[string]any{"strategy": ns.Name})
+				return
+			}
+		}
+	}
 	if ns.Row != nil {
 		cc.Count("cmp:"+ns.Row.Name, 1)
 	}
